@@ -211,7 +211,7 @@ def matrix_case():
 
 def main(chk):
     quick = chk.tier == 'quick'
-    n_schemas, n_pairs = (10, 16) if quick else (60, 32)
+    n_schemas, n_pairs = (10, 16) if quick else (200, 48)
     schemas = p21fam.std_corpus(chk.seed, n_schemas, AVOID_SCHEMA)
     libs = p21fam.report_build_failures(chk, p21fam.build_libs(schemas))
     MODES = ['from1', 'sparse', 'near1000', 'high']
